@@ -38,7 +38,7 @@ SPACINGS = ['uniform', 'log', 'irregular', 'longwave']
 # 'integers': every column holds whole numbers and the array source receives an integer-typed array (odd widths)
 INT_SPACING = 'integers'
 WIDTHS = ['contig', 'gappy', 'overlap']
-SOURCES = ['array', 'text', 'taurex', 'hdf5fn']
+SOURCES = ['array', 'text', 'text-aligned', 'taurex', 'hdf5fn']
 
 
 def wavelengths(letter, n):
@@ -95,6 +95,13 @@ def load(source, rows, tag):
         o = ArraySpectrum(buf)
         o._verif_input_buffer = buf       # kept so that the caller's buffer can be reused after loading
         return o, rows
+    if source == 'text-aligned':
+        # right-aligned fixed-width columns, no header: every line starts with blanks
+        from taurex.data.spectrum.observed import ObservedSpectrum
+        d = fx.fresh_dir('c17_text')
+        path = os.path.join(d, 'obs_%s.dat' % tag)
+        np.savetxt(path, rows, fmt='%18.10e')
+        return ObservedSpectrum(path), np.loadtxt(path)
     if source == 'text':
         from taurex.data.spectrum.observed import ObservedSpectrum
         d = fx.fresh_dir('c17_text')
